@@ -521,7 +521,13 @@ def _vpd_check(data, poly_trend, n_offsets, result):
     labels_ok = bool(np.all(ids.astype(str) == np.array([str(keys[i]) for i in src_of_row])))
     if not labels_ok:
         concat = np.array([str(keys[i]) for i in OWN])
-        if np.all(ids.astype(str) == concat):
+        chrono_in = bool(np.all(np.diff(T) >= 0))
+        if chrono_in:
+            # input already in time order (ties included): the pinned code labels it correctly; nothing known explains this
+            bad.append(("survey-labels-wrong-on-chronological-input",
+                        "the surveys were given in time order, yet %d of %d merged rows carry another survey's label"
+                        % (int(np.sum(ids.astype(str) != np.array([str(keys[i]) for i in src_of_row]))), n)))
+        elif np.all(ids.astype(str) == concat):
             bad.append(("survey-labels-not-time-sorted",
                         "ids are in concatenation order while the observations are time-sorted: %d of %d rows carry "
                         "another survey's label" % (int(np.sum(ids.astype(str) != np.array([str(keys[i]) for i in src_of_row]))), n)))
@@ -551,7 +557,7 @@ def _vpd_check(data, poly_trend, n_offsets, result):
         rows = np.where(col == 1)[0]
         owners = set(src_of_row[rows].tolist())
         if len(owners) != 1 or len(rows) != int(np.sum(src_of_row == (list(owners)[0] if owners else -1))):
-            key = "survey-labels-not-time-sorted" if not labels_ok and np.all(
+            key = "survey-labels-not-time-sorted" if not labels_ok and not bool(np.all(np.diff(T) >= 0)) and np.all(
                 ids.astype(str) == np.array([str(keys[i]) for i in OWN])) else "offset-column-mixes-surveys"
             bad.append((key, "offset column dv0_%d selects rows of surveys %s (it must select all rows of exactly one)"
                         % (j, sorted(owners))))
